@@ -14,7 +14,7 @@ func main() {
 	rep := vh.NewReport("C06", o.Seed, o.Tier)
 	rep.Rule = "per pairing suite (5): random programs over scalars, G1, G2 and GT pools (group ops incl. Hash/Pick points, results left in non-normalised coordinates) with Pair and ValidatePairing; observables: exact scalars, Equal/bytes partition of each pool incl. all pairing outputs and their GT combinations, ValidatePairing verdicts; plus bilinearity/additivity/identity/non-degeneracy/ValidatePairing-iff evaluated directly on edge operands. distinct = distinct program text; non-trivial = at least one Pair"
 	cf := &vh.CaseFile{Header: "From Kyber Require Import Group.GrpProg.", Type: "case", Runner: "mismatches"}
-	nprog, nops, nlaws := 8, 36, 4
+	nprog, nops, nlaws := 10, 44, 4
 	if o.Thorough {
 		nprog, nops, nlaws = 80, 60, 60
 	}
@@ -37,6 +37,7 @@ func main() {
 			rep.Dist("suite:" + ps.Name)
 			rep.DistN("pairings", len(p.Part[2]))
 			rep.DistN("validations", len(p.Verdicts))
+			rep.DistN("receiver-is-existing-object", p.NInPlace)
 			for _, v := range p.Verdicts {
 				rep.Dist(fmt.Sprintf("verdict:%v", v))
 			}
